@@ -632,6 +632,22 @@ impl Send {
         }
 
         if let Some(val) = settings.is_push_enabled() {
+            if self.is_push_enabled && !val {
+                // A PUSH_PROMISE that is still queued must not be sent once
+                // this SETTINGS frame has been acknowledged: cancel the
+                // promised streams. `pop_frame` drops the PUSH_PROMISE of a
+                // promise that is no longer pending.
+                store.for_each(|stream| {
+                    if stream.is_pending_push {
+                        counts.transition(stream, |counts, stream| {
+                            stream.is_pending_push = false;
+                            stream.set_reset(Reason::CANCEL, Initiator::Library);
+                            self.prioritize.clear_queue(buffer, stream);
+                            self.prioritize.reclaim_all_capacity(stream, counts);
+                        });
+                    }
+                });
+            }
             self.is_push_enabled = val
         }
 
